@@ -51,6 +51,13 @@ def gen_class(r, idx):
         lines += [f'@frozen_dataclass(type_safe={ts}, slots={slots})', f'class B{idx}(A{idx}):']
         for n, a in own:
             lines.append(f'    {n}: {a}')
+        own_post = r.choice(['absent', 'absent', 'runs', 'raises'])      # the derived class may define its own __post_init__ (overrides the inherited one)
+        if own_post == 'runs':
+            lines += ['    def __post_init__(self):', f'        J.append(("post", {idx}))']
+            post = 'runs'
+        if own_post == 'raises':
+            lines += ['    def __post_init__(self):', f'        J.append(("post", {idx}))', '        raise PostErr()']
+            post = 'raises'
         cls = f'B{idx}'
     return {'src': '\n'.join(lines) + '\n', 'cls': cls, 'ts': ts, 'post': post, 'idx': idx}
 
@@ -132,6 +139,9 @@ def execute(mod, clsname, op, post):
     from pedantic.exceptions import PedanticTypeCheckException, PedanticException
     cls = getattr(mod, clsname)
     del mod.J[:]
+    # decoys: the frame that calls the constructor holds unrelated objects under the names the field annotations refer to
+    # (forward references must resolve in the module that defines the dataclass, not in whoever happens to call it)
+    P = C1 = C2 = G = U = MI = str                                                             # noqa: F841
 
     def build(vals):
         return {n: K.build_val(t) for n, t in vals.items()}
